@@ -251,19 +251,20 @@ func keysOf(m map[string]any) []string {
 	return out
 }
 
-// options are the validation options of a schema op.
+// The option lists are process-wide values with spare capacity, shared by every call (and, in the
+// concurrent runs, by every goroutine), the way a program keeps its validation options in one variable:
+// the library may read them, it must not write into the caller's slice.
+var sharedOptionSets = map[string][]validate.Option{
+	"swagger":               append(make([]validate.Option, 0, 8), validate.SwaggerSchema(true)),
+	"object-array-type":     append(make([]validate.Option, 0, 8), validate.EnableObjectArrayTypeCheck(true)),
+	"array-must-have-items": append(make([]validate.Option, 0, 8), validate.EnableArrayMustHaveItemsCheck(true)),
+	"skip-schemata":         append(make([]validate.Option, 0, 8), validate.WithSkipSchemataResult(true)),
+	"":                      make([]validate.Option, 0, 8),
+}
+
+// options are the validation options of a schema op (a shared slice: never append to it in the harness).
 func (op *Op) options() []validate.Option {
-	switch op.OptSet {
-	case "swagger":
-		return []validate.Option{validate.SwaggerSchema(true)}
-	case "object-array-type":
-		return []validate.Option{validate.EnableObjectArrayTypeCheck(true)}
-	case "array-must-have-items":
-		return []validate.Option{validate.EnableArrayMustHaveItemsCheck(true)}
-	case "skip-schemata":
-		return []validate.Option{validate.WithSkipSchemataResult(true)}
-	}
-	return nil
+	return sharedOptionSets[op.OptSet]
 }
 
 func (op *Op) value() (any, error) {
@@ -297,7 +298,7 @@ func (op *Op) Run(recycling bool) sut.Outcome {
 			case op.Kind == "against":
 				return sut.FromError(validate.AgainstSchema(s, v, op.Formats, opts...))
 			default:
-				return sut.FromResult(validate.NewSchemaValidator(s, nil, "", op.Formats, append(opts, validate.WithRecycleValidators(true))...).Validate(v))
+				return sut.FromResult(validate.NewSchemaValidator(s, nil, "", op.Formats, append(append([]validate.Option(nil), opts...), validate.WithRecycleValidators(true))...).Validate(v))
 			}
 		})
 	case "param", "header":
